@@ -1,62 +1,84 @@
-(* C13: complete enumeration of the finite domain of Conc/CancelScopeDomain.v (3 x 669 x 29 = 58 203 runs of the
+(* C13: complete enumeration of the finite domain of Conc/CancelScopeDomain.v (3 x 285 x 25 = 21 375 runs of the
    machine), lifted to universally quantified statements with forallb_forall. *)
 From Coq Require Import List Arith Bool.
 From EN Require Import Conc.CancelScope Conc.CancelScopeDomain.
 Import ListNotations.
 
+Definition all9 (b1 b2 b3 b4 b5 b6 b7 b8 b9 : bool) : bool := b1 && b2 && b3 && b4 && b5 && b6 && b7 && b8 && b9.
+Lemma all9_true : forall b1 b2 b3 b4 b5 b6 b7 b8 b9, all9 b1 b2 b3 b4 b5 b6 b7 b8 b9 = true ->
+  b1 = true /\ b2 = true /\ b3 = true /\ b4 = true /\ b5 = true /\ b6 = true /\ b7 = true /\ b8 = true /\ b9 = true.
+Proof. intros [] [] [] [] [] [] [] [] []; simpl; intro H; try discriminate; repeat split. Qed.
+
+Definition check_state (fx fb : bool) (p : prog) (st : state) : bool :=
+  all9 (finished st) (negb (g_abort st))
+       (negb (g_late st))
+       (negb (g_shbroken st))
+       (negb (g_lost st))
+       (negb (shield_free p && catch_free p && (1 <=? g_ext st) && never_called st) || cancelled_out st)
+       (fb || negb (shield_free p && catch_free p && (1 <=? g_ext st)) || cancelled_out st)
+       (Nat.eqb (g_floor st) 0)
+       (negb fx || Nat.eqb (g_leak st) 0).
 Definition check_run (fl : bool * bool) (p : prog) (pos : list (nat * bool)) : bool :=
-  let st := bounded_run (fst fl) (snd fl) p pos in
-  finished st && negb (g_abort st)
-  && negb (g_late st)
-  && negb (g_shbroken st)
-  && negb (g_lost st)
-  && (negb (shield_free p && catch_free p && (1 <=? g_ext st) && never_called st) || cancelled_out st)
-  && (snd fl || negb (shield_free p && catch_free p && (1 <=? g_ext st)) || cancelled_out st)
-  && Nat.eqb (g_floor st) 0
-  && (negb (fst fl) || Nat.eqb (g_leak st) 0).
+  check_state (fst fl) (snd fl) p (bounded_run (fst fl) (snd fl) p pos).
 
-Definition check_all : bool :=
+(* the statements are spelled out (no intermediate constant) so that the kernel compares them syntactically instead of
+   evaluating them with its lazy machine *)
+Lemma check_all_true :
   forallb (fun fl => forallb (fun p => forallb (fun pos => check_run fl p pos) bounded_positions) bounded_programs)
-          bounded_flags.
-
-Lemma check_all_true : check_all = true.
+          bounded_flags = true.
 Proof. vm_compute. reflexivity. Qed.
 
+Lemma check_flags_true : forall fl, In fl bounded_flags ->
+  forallb (fun p => forallb (fun pos => check_run fl p pos) bounded_positions) bounded_programs = true.
+Proof. intros fl Hf. exact (proj1 (forallb_forall _ _) check_all_true fl Hf). Qed.
+Lemma check_progs_true : forall fl p, In fl bounded_flags -> In p bounded_programs ->
+  forallb (fun pos => check_run fl p pos) bounded_positions = true.
+Proof. intros fl p Hf Hp. exact (proj1 (forallb_forall _ _) (check_flags_true fl Hf) p Hp). Qed.
 Lemma check_run_true : forall fl p pos,
   In fl bounded_flags -> In p bounded_programs -> In pos bounded_positions -> check_run fl p pos = true.
-Proof.
-  intros fl p pos Hf Hp Hpos. pose proof check_all_true as H. unfold check_all in H.
-  rewrite forallb_forall in H. specialize (H fl Hf).
-  rewrite forallb_forall in H. specialize (H p Hp).
-  rewrite forallb_forall in H. exact (H pos Hpos).
-Qed.
+Proof. intros fl p pos Hf Hp Hpos. exact (proj1 (forallb_forall _ _) (check_progs_true fl p Hf Hp) pos Hpos). Qed.
 
-Ltac split_check H :=
-  unfold check_run in H; repeat (apply andb_prop in H; let H' := fresh "C" in destruct H as [H H']).
+Lemma check_run_unfold : forall fl p pos,
+  check_run fl p pos = check_state (fst fl) (snd fl) p (bounded_run (fst fl) (snd fl) p pos).
+Proof. intros. unfold check_run. reflexivity. Qed.
 
-Lemma bounded_facts : forall fx fb p pos,
-  In (fx, fb) bounded_flags -> In p bounded_programs -> In pos bounded_positions ->
-  let st := bounded_run fx fb p pos in
+Lemma check_state_facts : forall fx fb p st, check_state fx fb p st = true ->
   (finished st = true /\ g_abort st = false) /\
   g_late st = false /\ g_shbroken st = false /\ g_lost st = false /\
   (shield_free p = true -> catch_free p = true -> 1 <= g_ext st -> never_called st = true -> cancelled_out st = true) /\
   (fb = false -> shield_free p = true -> catch_free p = true -> 1 <= g_ext st -> cancelled_out st = true) /\
   g_floor st = 0 /\ (fx = true -> g_leak st = 0).
 Proof.
-  intros fx fb p pos Hf Hp Hpos st. pose proof (check_run_true (fx, fb) p pos Hf Hp Hpos) as H.
-  cbn [fst snd] in H. fold st in H.
-  repeat (apply andb_prop in H; let C := fresh "C" in destruct H as [H C]).
+  intros fx fb p st H. unfold check_state in H. apply all9_true in H.
+  destruct H as (H1 & H2 & H3 & H4 & H5 & H6 & H7 & H8 & H9).
   repeat split.
-  - exact H.
-  - apply negb_true_iff. assumption.
-  - apply negb_true_iff. assumption.
-  - apply negb_true_iff. assumption.
-  - apply negb_true_iff. assumption.
-  - intros A B E N. apply orb_prop in C3. destruct C3 as [X|X]; [|exact X].
+  - exact H1.
+  - apply negb_true_iff. exact H2.
+  - apply negb_true_iff. exact H3.
+  - apply negb_true_iff. exact H4.
+  - apply negb_true_iff. exact H5.
+  - intros A B E N. apply orb_prop in H6. destruct H6 as [X|X]; [|exact X].
     apply negb_true_iff in X. apply Nat.leb_le in E. rewrite A, B, E, N in X. discriminate.
-  - intros F A B E. apply orb_prop in C2. destruct C2 as [X|X]; [|exact X].
+  - intros F A B E. apply orb_prop in H7. destruct H7 as [X|X]; [|exact X].
     apply orb_prop in X. destruct X as [X|X]; [congruence|].
     apply negb_true_iff in X. apply Nat.leb_le in E. rewrite A, B, E in X. discriminate.
-  - apply Nat.eqb_eq. assumption.
-  - intros F. apply orb_prop in C0. destruct C0 as [X|X]; [rewrite F in X; discriminate|apply Nat.eqb_eq; exact X].
+  - apply Nat.eqb_eq. exact H8.
+  - intros F. apply orb_prop in H9. destruct H9 as [X|X]; [rewrite F in X; discriminate|apply Nat.eqb_eq; exact X].
+Qed.
+
+Lemma bounded_facts : forall fx fb p pos,
+  In (fx, fb) bounded_flags -> In p bounded_programs -> In pos bounded_positions ->
+  (finished (bounded_run fx fb p pos) = true /\ g_abort (bounded_run fx fb p pos) = false) /\
+  g_late (bounded_run fx fb p pos) = false /\ g_shbroken (bounded_run fx fb p pos) = false /\
+  g_lost (bounded_run fx fb p pos) = false /\
+  (shield_free p = true -> catch_free p = true -> 1 <= g_ext (bounded_run fx fb p pos) ->
+   never_called (bounded_run fx fb p pos) = true -> cancelled_out (bounded_run fx fb p pos) = true) /\
+  (fb = false -> shield_free p = true -> catch_free p = true -> 1 <= g_ext (bounded_run fx fb p pos) ->
+   cancelled_out (bounded_run fx fb p pos) = true) /\
+  g_floor (bounded_run fx fb p pos) = 0 /\ (fx = true -> g_leak (bounded_run fx fb p pos) = 0).
+Proof.
+  intros fx fb p pos Hf Hp Hpos.
+  pose proof (check_run_true (fx, fb) p pos Hf Hp Hpos) as H.
+  rewrite check_run_unfold in H. cbn [fst snd] in H.
+  exact (check_state_facts _ _ _ _ H).
 Qed.
